@@ -29,7 +29,7 @@ use proptest::prelude::*;
 use serde::{Deserialize, Serialize};
 use std::sync::Arc;
 use vf_df::{ErrClass, Flavor, StrEncoding, Variant, classify_error};
-use vf_kit::engine::{Tier, truncate};
+use vf_kit::engine::{CaseResult, Tier, fnv1a, truncate};
 use vf_kit::refsql::{self, GenConfig, Query, Table, Value};
 
 use crate::tmpl::TQuery;
@@ -59,6 +59,9 @@ pub struct SourceDecl {
     pub renumber: bool,
     /// also declare up to two single-column orderings that happen to hold on every partition
     pub extra: bool,
+    /// register the unique `id` column as NOT NULL (it never holds a NULL)
+    #[serde(default)]
+    pub id_not_null: bool,
 }
 
 #[derive(Clone, Debug, Serialize, Deserialize)]
@@ -82,8 +85,8 @@ impl WalkCase {
             .sources
             .iter()
             .enumerate()
-            .filter(|(_, s)| !s.sort.is_empty() || s.extra)
-            .map(|(i, s)| format!("t{i}: sort={:?} renumber={} extra={}", s.sort, s.renumber, s.extra))
+            .filter(|(_, s)| !s.sort.is_empty() || s.extra || s.id_not_null)
+            .map(|(i, s)| format!("t{i}: sort={:?} renumber={} extra={} id_not_null={}", s.sort, s.renumber, s.extra, s.id_not_null))
             .collect();
         format!(
             "\n  sql: {}\n  variant: tp={} batch_size={:?} mem_partitions={} batch_rows={:?} strings={:?} options={:?}\n  declared sources: {}",
@@ -192,8 +195,9 @@ pub fn source_strategy() -> BoxedStrategy<SourceDecl> {
     let key = (0u8..6, any::<bool>(), any::<bool>()).prop_map(|(col, desc, nulls_first)| SortKey { col, desc, nulls_first });
     prop_oneof![
         2 => Just(SourceDecl::default()),
-        5 => (prop::collection::vec(key, 1..=3), any::<bool>(), prop::bool::weighted(0.6)).prop_map(|(sort, renumber, extra)| SourceDecl { sort, renumber, extra }),
-        1 => Just(SourceDecl { sort: vec![], renumber: false, extra: true }),
+        5 => (prop::collection::vec(key, 1..=3), any::<bool>(), prop::bool::weighted(0.6), any::<bool>()).prop_map(|(sort, renumber, extra, id_not_null)| SourceDecl { sort, renumber, extra, id_not_null }),
+        1 => Just(SourceDecl { sort: vec![], renumber: false, extra: true, id_not_null: false }),
+        2 => Just(SourceDecl { sort: vec![], renumber: false, extra: false, id_not_null: true }),
     ]
     .boxed()
 }
@@ -338,7 +342,21 @@ fn holds_on_all(parts: &[Vec<RecordBatch>], schema: &SchemaRef, keys: &[SortKey]
 /// MemTable for a table under the variant and its declaration; only verified orderings are declared
 pub fn mem_table_declared(t: &Table, decl: &SourceDecl, v: &Variant) -> Result<(MemTable, Declared), String> {
     let t = prepared_table(t, decl);
-    let (schema, batches) = vf_df::table_to_batches(&t, v.strings, v.batch_rows)?;
+    let (mut schema, mut batches) = vf_df::table_to_batches(&t, v.strings, v.batch_rows)?;
+    if decl.id_not_null {
+        if let Some(idc) = t.cols.iter().position(|c| c.name == "id") {
+            if t.rows.iter().all(|r| !r[idc].is_null()) {
+                let fields: Vec<datafusion::arrow::datatypes::Field> =
+                    schema.fields().iter().enumerate().map(|(i, f)| if i == idc { f.as_ref().clone().with_nullable(false) } else { f.as_ref().clone() }).collect();
+                schema = Arc::new(datafusion::arrow::datatypes::Schema::new(fields));
+                let mut rebuilt = vec![];
+                for b in &batches {
+                    rebuilt.push(RecordBatch::try_new(schema.clone(), b.columns().to_vec()).map_err(|e| e.to_string())?);
+                }
+                batches = rebuilt;
+            }
+        }
+    }
     let np = v.mem_partitions.max(1);
     let mut parts: Vec<Vec<RecordBatch>> = vec![vec![]; np];
     for (i, b) in batches.into_iter().enumerate() {
@@ -405,6 +423,8 @@ pub fn engine_err(e: &DataFusionError, stage: &'static str) -> EngineErr {
 
 pub struct Planned {
     pub logical: LogicalPlan,
+    /// after the analyzer (type coercion …), before the optimizer; None when the analyzer alone fails
+    pub analyzed: Option<LogicalPlan>,
     pub optimized: LogicalPlan,
     pub physical: Arc<dyn ExecutionPlan>,
 }
@@ -413,13 +433,15 @@ pub async fn plan_sql(ctx: &SessionContext, sql: &str) -> Result<Planned, Engine
     let state = ctx.state();
     let logical = state.create_logical_plan(sql).await.map_err(|e| engine_err(&e, "logical"))?;
     let optimized = state.optimize(&logical).map_err(|e| engine_err(&e, "optimize"))?;
+    let analyzed = state.analyzer().execute_and_check(logical.clone(), &state.config_options(), |_, _| {}).ok();
     let physical = state.query_planner().create_physical_plan(&optimized, &state).await.map_err(|e| engine_err(&e, "physical"))?;
-    Ok(Planned { logical, optimized, physical })
+    Ok(Planned { logical, analyzed, optimized, physical })
 }
 
 pub struct WalkNode {
     /// child indexes from the root, e.g. "0.1"
     pub path: String,
+    #[allow(dead_code)]
     pub depth: usize,
     pub name: String,
     /// one-line display of the operator
@@ -440,8 +462,11 @@ impl WalkNode {
 }
 
 pub struct Walk {
+    /// schema of the plan as produced by the SQL planner (before the analyzer's type coercion)
     pub logical_schema: DFSchemaRef,
+    pub analyzed_schema: Option<DFSchemaRef>,
     pub optimized_schema: DFSchemaRef,
+    #[allow(dead_code)]
     pub physical: Arc<dyn ExecutionPlan>,
     pub plan_text: String,
     pub nodes: Vec<WalkNode>,
@@ -460,6 +485,24 @@ fn unbound_work_table(plan: &Arc<dyn ExecutionPlan>) -> bool {
 pub fn plan_text(plan: &Arc<dyn ExecutionPlan>) -> String {
     let s = displayable(plan.as_ref()).indent(false).to_string();
     s
+}
+
+/// untruncated one-line display (for classification)
+pub fn one_line_full(plan: &dyn ExecutionPlan) -> String {
+    displayable(plan).one_line().to_string().trim().to_string()
+}
+
+/// debugging aid (`VFW_DUMP=1`): per node, the rows per partition
+pub fn dump(w: &Walk) {
+    if std::env::var_os("VFW_DUMP").is_none() {
+        return;
+    }
+    for n in &w.nodes {
+        match &n.parts {
+            Ok(p) => eprintln!("DUMP [{}] {} rows/partition={:?}", n.path, truncate(&n.display, 120), p.iter().map(|b| b.iter().map(|x| x.num_rows()).sum::<usize>()).collect::<Vec<_>>()),
+            Err(e) => eprintln!("DUMP [{}] {} error={}", n.path, truncate(&n.display, 120), truncate(&e.message, 200)),
+        }
+    }
 }
 
 pub fn one_line(plan: &dyn ExecutionPlan) -> String {
@@ -511,6 +554,7 @@ pub async fn walk_sql(ctx: &SessionContext, sql: &str, declared: Vec<Declared>) 
     let (nodes, skipped) = walk_plan(ctx, &planned.physical).await;
     Ok(Walk {
         logical_schema: planned.logical.schema().clone(),
+        analyzed_schema: planned.analyzed.as_ref().map(|p| p.schema().clone()),
         optimized_schema: planned.optimized.schema().clone(),
         plan_text: plan_text(&planned.physical),
         physical: planned.physical,
@@ -529,21 +573,50 @@ pub fn walk(case: &WalkCase) -> Result<Walk, WalkFail> {
     })
 }
 
-/// Plan only (no execution): the physical plan's operator names with the number of declared fields of each.
-pub fn plan_shape(case: &WalkCase) -> Option<Vec<(String, usize)>> {
-    let sql = case.sql();
-    in_session(&case.variant, |ctx| async move {
-        register_declared(&ctx, case).map_err(WalkFail::Setup)?;
-        let planned = plan_sql(&ctx, &sql).await.map_err(WalkFail::Plan)?;
-        Ok(enumerate_nodes(&planned.physical).into_iter().map(|(_, _, n)| (n.name().to_string(), n.schema().fields().len())).collect())
-    })
-    .ok()
+/// Shapes of the physical plan that open known findings are keyed on (planning only, no execution).
+#[derive(Clone, Debug, Default)]
+pub struct PlanProbe {
+    /// a `PlaceholderRowExec` declaring columns (left behind by the aggregate-from-statistics rewrite)
+    pub typed_placeholder_row: bool,
+    /// a LEFT/RIGHT/FULL join whose NULL-padded input declares a constant
+    pub outer_join_padded_constant: bool,
+    /// a `PiecewiseMergeJoin` of a classic join type (Inner/Left/Right/Full)
+    pub classic_piecewise_merge_join: bool,
+    /// an `AggregateExec` carrying limit options (`lim=[k]`) that declares an output ordering
+    pub limited_aggregate_with_ordering: bool,
 }
 
-/// the aggregate-from-statistics rewrite leaves a `PlaceholderRowExec` that declares the aggregate's schema
-/// but emits `Null`-typed columns (known finding of C30, signature `placeholder-row-declares-aggregate-schema`)
-pub fn has_typed_placeholder_row(case: &WalkCase) -> bool {
-    plan_shape(case).map(|s| s.iter().any(|(n, f)| n == "PlaceholderRowExec" && *f > 0)).unwrap_or(false)
+pub fn probe_plan(root: &Arc<dyn ExecutionPlan>) -> PlanProbe {
+    let mut p = PlanProbe::default();
+    for (_, _, n) in enumerate_nodes(root) {
+        let name = n.name();
+        if name == "PlaceholderRowExec" && !n.schema().fields().is_empty() {
+            p.typed_placeholder_row = true;
+        }
+        let text = one_line_full(n.as_ref());
+        if name == "AggregateExec" && text.contains("lim=[") && !n.properties().equivalence_properties().oeq_class().is_empty() {
+            p.limited_aggregate_with_ordering = true;
+        }
+        let jt = |t: &str| text.contains(&format!("join_type={t},")) || text.contains(&format!("join_type={t} ")) || text.ends_with(&format!("join_type={t}"));
+        if name.contains("Join") {
+            let kids = n.children();
+            if kids.len() == 2 {
+                let constant = |c: &Arc<dyn ExecutionPlan>| !c.properties().equivalence_properties().constants().is_empty();
+                if (jt("Left") || jt("Full")) && constant(kids[1]) {
+                    p.outer_join_padded_constant = true;
+                }
+                if (jt("Right") || jt("Full")) && constant(kids[0]) {
+                    p.outer_join_padded_constant = true;
+                }
+            }
+            if name == "PiecewiseMergeJoin" || name == "PiecewiseMergeJoinExec" {
+                if jt("Inner") || jt("Left") || jt("Right") || jt("Full") {
+                    p.classic_piecewise_merge_join = true;
+                }
+            }
+        }
+    }
+    p
 }
 
 pub async fn walk_plan(ctx: &SessionContext, physical: &Arc<dyn ExecutionPlan>) -> (Vec<WalkNode>, usize) {
@@ -601,4 +674,72 @@ pub fn plan_labels(case: &WalkCase, w: &Walk) -> Vec<String> {
 pub fn discard_key(e: &EngineErr) -> String {
     let m: String = e.message.chars().take(70).map(|c| if c.is_ascii_digit() { '#' } else { c }).collect();
     format!("{:?}@{}: {m}", e.class, e.stage)
+}
+
+// ---------------------------------------------------------------------------------------------
+// findings, outcome-keyed known signatures
+
+/// one violated claim; `sig` = the open-known-finding signature this violation is an instance of (None = new)
+#[derive(Clone, Debug)]
+pub struct Finding {
+    pub sig: Option<String>,
+    pub msg: String,
+}
+
+/// everything a property concluded about one case
+#[derive(Clone, Debug)]
+pub struct Judged {
+    pub findings: Vec<Finding>,
+    /// the result when there is no finding (pass / discard / inconclusive, with labels); for a violation: labels only
+    pub result: CaseResult,
+}
+
+impl Judged {
+    pub fn clean(result: CaseResult) -> Self {
+        Judged { findings: vec![], result }
+    }
+}
+
+thread_local! {
+    /// the engine calls `known_signature` and then `run` on the same case back to back on the same thread: the
+    /// judgement (plain data only — no plans, no batches) is computed once
+    static JUDGED: std::cell::RefCell<Option<(u64, Judged)>> = const { std::cell::RefCell::new(None) };
+}
+
+fn judged<C: Serialize>(sub: &str, case: &C, judge: impl FnOnce() -> Judged) -> Judged {
+    let mut key_src = serde_json::to_vec(case).unwrap_or_default();
+    key_src.extend_from_slice(sub.as_bytes());
+    let key = fnv1a(&key_src);
+    if let Some(hit) = JUDGED.with(|c| c.borrow().as_ref().filter(|(k, _)| *k == key).map(|(_, j)| j.clone())) {
+        return hit;
+    }
+    let j = judge();
+    JUDGED.with(|c| *c.borrow_mut() = Some((key, j.clone())));
+    j
+}
+
+/// Outcome-keyed signature: the case fails AND every violation found is an instance of a known finding.
+pub fn judged_signature<C: Serialize>(sub: &str, case: &C, judge: impl FnOnce() -> Judged) -> Option<String> {
+    let j = judged(sub, case, judge);
+    if !j.findings.is_empty() && j.findings.iter().all(|f| f.sig.is_some()) { j.findings[0].sig.clone() } else { None }
+}
+
+pub fn judged_result<C: Serialize>(sub: &str, case: &C, judge: impl FnOnce() -> Judged) -> CaseResult {
+    let j = judged(sub, case, judge);
+    JUDGED.with(|c| *c.borrow_mut() = None);
+    match j.findings.iter().find(|f| f.sig.is_none()).or(j.findings.first()) {
+        None => j.result,
+        Some(f) => {
+            let mut msg = f.msg.clone();
+            if j.findings.len() > 1 {
+                msg.push_str(&format!("\n  ({} violated claims in this case in total)", j.findings.len()));
+            }
+            CaseResult::violation(msg).labels(j.result.labels.clone())
+        }
+    }
+}
+
+/// a LEFT/RIGHT/FULL join below (or at) `plan` whose NULL-padded input declares a constant
+pub fn subtree_has(plan: &Arc<dyn ExecutionPlan>, pred: &dyn Fn(&Arc<dyn ExecutionPlan>) -> bool) -> bool {
+    pred(plan) || plan.children().iter().any(|c| subtree_has(c, pred))
 }
